@@ -33,6 +33,15 @@ REQUIRED_THEOREMS = [
     "TapkeeVerif.Dijkstra.fib_build_total",
     "TapkeeVerif.IsomapPre.center_eq_JAJ",
     "TapkeeVerif.IsomapPre.isomap_is_cmds",
+    "TapkeeVerif.IsomapPre.isomap_is_cmds_either_dense_preamble",
+    "TapkeeVerif.IsomapPre.isomapSteps_as_written",
+    "TapkeeVerif.IsomapPre.isomapPre_eq_cmds",
+    "TapkeeVerif.Dijkstra.landmark_row_eq_full_row_of_flag",
+    "TapkeeVerif.Dijkstra.landmark_row_eq_full_row_any_lazy",
+    "TapkeeVerif.Dijkstra.popMin_removes_a_minimum",
+    "TapkeeVerif.Dijkstra.oracle_agrees_with_model",
+    "TapkeeVerif.IsomapPre.isomap_is_cmds_unrepaired_symm",
+    "TapkeeVerif.IsomapPre.asymD_is_geodesic_matrix",
     "TapkeeVerif.IsomapPre.isomapPre_symm",
     "TapkeeVerif.IsomapPre.isomap_is_cmds_unrepaired_refuted",
 ]
@@ -46,8 +55,15 @@ def translate(ctx):
     spec = importlib.util.spec_from_file_location("translate_c04", os.path.join(vlib.ROOT, "tools", "translate_c04.py"))
     mod = importlib.util.module_from_spec(spec)
     spec.loader.exec_module(mod)
-    text = mod.generate(vlib.REPO)
-    if vlib.write_if_changed(os.path.join(vlib.LEAN_DIR, "TapkeeVerif", "Gen", "IsomapSteps.lean"), text):
+    gen = os.path.join(vlib.LEAN_DIR, "TapkeeVerif", "Gen", "IsomapSteps.lean")
+    notes = []
+    # a part of the source the translator cannot parse keeps its previous generated value; whether behaviour changed is
+    # then decided by the exact model/implementation correspondence (geo: whole matrices; iso: matrix before the solver)
+    text = mod.generate(vlib.REPO, fallback_path=gen, notes=notes)
+    ctx.c04_translator_notes = notes
+    for n in notes:
+        ctx.log("translator could not parse (previous value kept, correspondence decides):", n)
+    if vlib.write_if_changed(gen, text):
         ctx.log("Gen/IsomapSteps.lean regenerated")
 
 
@@ -997,15 +1013,27 @@ def correspond(ctx):
         iso.append(c)
     iso.sort(key=lambda c: 0 if all(c.W[i][j] == c.W[j][i] for i in range(c.N) for j in range(i)) else 1)
     judge_iso(ctx, bins["iso"], iso, [1, 3, 8] if quick else THREADS)
+    ctx.extra["iso_build"] = ("quick: IsomapImplementation instantiated directly, built -O1 WITHOUT sanitizers (15 s compile)"
+                              if quick else "thorough: tapkee::with(...).embedUsing under ASan+UBSan")
     ctx.log("isomap end to end: %d cases" % len(iso))
     skip_guards(ctx)
+    notes = getattr(ctx, "c04_translator_notes", [])
+    if notes:
+        ctx.extra["translator_fallback"] = notes
+        ctx.assumptions.append("translate_c04 could not parse %d part(s) of the source and kept the previous table; the exact "
+                               "correspondence of this run decided that behaviour is unchanged: %s" % (len(notes), "; ".join(notes)))
+    iso_threads = [1, 3, 8] if quick else THREADS
     ctx.cov["rule"] = (
         "geo: uniform-length neighbour lists from 4 generators (true k-NN of integer lattice points under L1/Linf with random "
         "tie-breaks; arbitrary digraphs with asymmetric non-metric dyadic weights, self loops, repeated entries; clusters with "
-        "one-way bridges (unreachable parts); paths/cycles/grids with equal weights), N<=%d, k<=8, every landmark subset for "
-        "N<=6 and random shuffled subsets beyond; each case through both overloads, 2 builds x OMP_NUM_THREADS %s; "
-        "iso: Isomap end to end on distinct integer points (L1) / integer dissimilarity matrices, N in {8,16,32}; "
-        "non-trivial = N>=3 and k>=1; distinct by case text" % (maxN if quick else 200, THREADS))
+        "one-way bridges (unreachable parts); paths/cycles/grids with equal weights); weights small integers / dyadics and, in "
+        "about a sixth of the cases, wide mantissas (1+j*2^-30, 2^26+j: > 24 significant bits, sums exact in double); half of the "
+        "cases with a permuted / offset / strided index vector; N<=%d, k<=8, every landmark subset for N<=6 and random shuffled "
+        "subsets (some with repeats) beyond; each case through both overloads, 2 builds x OMP_NUM_THREADS %s (malformed and "
+        "corpus cases: [1, 3]); iso: Isomap end to end on distinct integer points (L1) / integer dissimilarity matrices, a fifth "
+        "scaled by 1+j*2^-22 (matrix compared within 2^-30*scale), half with a non-identity index vector, N in %s, 2 builds x "
+        "OMP_NUM_THREADS %s; non-trivial = N>=3 and k>=1; distinct by case text"
+        % (maxN if quick else 200, THREADS, "{8,16}" if quick else "{8,16,32}", iso_threads))
     ctx.assumptions += [
         "weights are non-negative, non-NaN and such that every path sum is exact in double (small integers / dyadics): the "
         "model computes in an exact ordered field; dblmax is modelled as +infinity",
